@@ -62,7 +62,7 @@ def attempts(real, rng, w):
     for r in roots + loose:
         for src in (("str", real.reserve(1)[0], "T"), ("tag", real.reserve(1)[0], "td")):
             if live[r][0] != "tag" and src[0] == "tag":
-                out.append(("tagdef-next-to-parentless-text", (rng.choice(["follow", "precede"]), r, (src,)), None))
+                out.append(("tagdef-next-to-parentless-text", (rng.choice(["follow", "precede"]), r, (src,)), "InvalidOperation"))
             else:
                 out.append(("sibling-of-root", (rng.choice(["follow", "precede"]), r, (src,)),
                             "TypeError" if live[r][0] == "tag" else "InvalidOperation"))
@@ -78,23 +78,23 @@ def attempts(real, rng, w):
         if nk or rng.random() < 0.5:
             out.append(("index-out-of-range", ("setitem", p, nk + rng.randint(0 if nk else 1, 2), ("str", real.reserve(1)[0], "T")), "IndexError"))
         out.append(("index-out-of-range", ("delitem", p, nk + rng.randint(0, 2)), "IndexError"))
-    # findings 20, 21
+    # a document's root offered; an ancestor (or the node itself) offered  (findings 20, 21 of round 1, repaired)
     for r in roots:
         for p in tags:
-            if p != r and live[p][1] is False and not w["docs"][0][0] and not w["docs"][0][2] and len(w["docs"]) == 1:
+            if p != r:
                 out.append(("document-root-offered", ("append", p, (("node", r),)), "InvalidOperation"))
     for n in loose:
         if live[n][0] == "tag":
             for x in ids:
-                if x != n and n in anc(x):
-                    out.append(("ancestor-offered", (rng.choice(["follow", "precede"]), x, (("node", n),)), "InvalidOperation"))
+                if n in anc(x):
+                    if x != n:
+                        out.append(("ancestor-offered", (rng.choice(["follow", "precede"]), x, (("node", n),)), "InvalidOperation"))
+                    if live[x][0] == "tag":
+                        out.append(("ancestor-offered", (rng.choice(["append", "prepend"]), x, (("node", n),)), "InvalidOperation"))
     return out
 
 
-CLASS_OF = {"attached-to-childless-item": "item-assignment-of-attached-node-to-childless",
-            "document-root-offered": "document-root-offered",
-            "ancestor-offered": "ancestor-offered",
-            "tagdef-next-to-parentless-text": "tagdef-next-to-parentless-text"}
+CLASS_OF = {}      # findings 19-22 are repaired: no class is excused
 
 
 def classify(finding, case):
@@ -123,9 +123,10 @@ def run_case(ctx, rng, h):
             continue
         exc = real.run(F_ALL, o)
         w1 = real.dump_world()
-        rec["steps"].append({"op": o, "exc": exc, "w": w1, "category": "legal", "expect": None, "before": w})
+        partial = exc is not None and len(c01.op_sources(o)) > 1
+        rec["steps"].append({"op": o, "exc": exc, "w": w1, "category": "legal", "expect": None, "before": w, "partial": partial})
         w = w1
-        if exc in ("ValueError", "AssertionError", "AttributeError"):
+        if exc in ("AssertionError", "AttributeError") or partial:
             return rec
     cands = attempts(real, rng, w)
     rng.shuffle(cands)
@@ -181,7 +182,7 @@ def compare(ctx, rec, val):
         if st["category"] != "legal" and cr[0] != "rejected":
             ctx.mismatch("the model does not classify the exception as a refusal", {"case": case, "model": cr})
             return
-        if cr[0] == "crash":
+        if cr[0] == "crash" or st.get("partial"):
             return
         if T.norm_cworld(cw) != st["w"]:
             ctx.mismatch("cstep state vs implementation", {"case": case, "impl": st["w"], "model": T.norm_cworld(cw)})
@@ -233,6 +234,15 @@ def replay_open(f):
     return c01.replay_open(f)
 
 
+def fixed_cases(ctx):
+    """the witnesses of repaired findings must not fail again"""
+    for f in common.load_findings():
+        if f["property"] == "C09" and f["status"] == "fixed" and f.get("witness", {}).get("python"):
+            ctx.count(1, "fixed-finding-witness")
+            if c01.replay_open(f):
+                ctx.fail("the witness of the repaired finding %s fails again" % f["id"], {"category": "regression", "finding": f["id"]}, classify)
+
+
 def run(ctx, args):
     ctx.branches, ctx.skipped = {}, {}
     ctx.regen(["GenWs.v", "GenValidators.v"])
@@ -243,6 +253,7 @@ def run(ctx, args):
         for h in range(90 if quick else 2500):
             recs.append(run_case(ctx, ctx.rng, h))
         validator_cases(ctx, 150 if quick else 3000)
+        fixed_cases(ctx)
     terms = [T.ghist(r["w0"], [(F_ALL, s["op"]) for s in r["steps"]]) for r in recs]
     vals = ctx.coq_eval("c09", T.REQ, terms, chunk=max(4, len(terms) // 16 + 1))
     for r, v in zip(recs, vals):
